@@ -21,10 +21,12 @@ func TestVerif(t *testing.T) {
 		os.Stdout.Sync()
 		os.Exit(code)
 	case "shard":
+		memWatch()
 		if code := shardMain(t); code != 0 {
 			os.Exit(code)
 		}
 	case "replay":
+		memWatch()
 		os.Exit(replayMain(t))
 	case "gen":
 		// print one generated scenario (debugging aid)
